@@ -36,9 +36,11 @@ def c03_static(tier):
     probs, cov = [], {}
     rc, out, err = run_loggerfacts("chain")
     if rc != 0:
-        probs.append(("tie", "gen/loggerfacts cannot recognise the code shape of clone/WithAttrs/WithGroup any more: " + err.strip()[:600],
+        probs.append(("unrecognised", "gen/loggerfacts cannot recognise the code shape of clone/WithAttrs/WithGroup any more: " + err.strip()[:600],
                       {"broken": "source facts C03 (gen/loggerfacts chain)", "extractor_rc": rc, "stderr": err[-3000:]}))
         cov["source_facts"] = {"recognised": False, "stderr": err.strip().splitlines()[:10]}
+        # the model in the driver then runs under the disciplined flags; the harness alone judges isolation for this source
+        CFG["drv_args"] = ["111", "111"]
         return 3, 0, probs, cov
     facts = dict(re.findall(r"Definition (\w+)_chain_facts : chain_facts := mkChainFacts ([a-z ]+)\.", out))
     st = selftest(tier)
